@@ -76,10 +76,13 @@ func dispatch(what, tier string, seed uint64, replay string) int {
 		return genTest(a, 400, seed)
 	}
 	switch what {
-	case "C19", "C12":
+	case "C19", "C12", "C14":
 		lc := c19Check()
 		if what == "C12" {
 			lc = c12Check()
+		}
+		if what == "C14" {
+			lc = c14Check()
 		}
 		if replay != "" {
 			return lc.replayCmd(a, replay)
